@@ -5,9 +5,9 @@ Import ListNotations.
 (* ---------- simplification of record accessors over setters ---------- *)
 Ltac ss :=
   cbn [hosts desc excl closing shut cur secure ph nfail imm ntasks opn waiters dials verifs nextcid now subs
-       supsub tie fuel_out trace
+       supsub tie fuel_out adv_out trace
        set_hosts set_desc set_excl set_closing set_shut set_cur set_secure set_ph set_nfail set_imm set_ntasks
-       set_opn set_waiters set_dials set_verifs set_nextcid set_now set_subs set_supsub set_tie set_fuel_out
+       set_opn set_waiters set_dials set_verifs set_nextcid set_now set_subs set_supsub set_tie set_fuel_out set_adv_out
        set_trace emit] in *.
 
 (* ---------- arithmetic of the back-off ---------- *)
@@ -404,4 +404,360 @@ Proof.
       (split; [|split; [assumption || reflexivity|reflexivity]]);
       unfold running in *; rewrite ?Ep in *; fin; rewrite ?Ep in *; fin2; try (rewrite It; reflexivity).
     all: try (destruct (waiters s); [reflexivity|exfalso; assert (false = true) by (apply Iw; discriminate); discriminate]).
+Qed.
+
+Lemma lose_current_inv reset c s : Inv s -> cur s = Some c -> Inv (lose_current reset c s).
+Proof.
+  intros H Ecur. destruct (inv_cur_ph s c H Ecur) as [Ho [Hs [Hp|[u Hp]]]]; dinv H.
+  - (* steady state: the connection in use is lost *)
+    unfold lose_current. cbv zeta. ss. rewrite Hp. rewrite Ho, remove_nat_single.
+    assert (Hrun : running s = false) by (unfold running; now rewrite Hp).
+    destruct (closing s) eqn:Ecl.
+    + unfold running in *. rewrite Hp in *. fin; rewrite ?Hp in *; fin2.
+    + apply start_from; ss; auto;
+        try (unfold running; ss; now rewrite Hp); try (rewrite It, Hrun; reflexivity).
+  - (* lost while the connector is inside owner.connection_made(True) *)
+    assert (Hrun : running s = true) by (unfold running; now rewrite Hp).
+    unfold lose_current. cbv zeta. ss. rewrite Hp. rewrite Ho, remove_nat_single.
+    destruct reset.
+    + apply backoff_inv. constructor; ss; auto; try (rewrite It, Hrun; reflexivity).
+    + unfold finish, resolve_waiters. ss.
+      rewrite (Ir Hrun).
+      apply start_from; ss; auto;
+        try (rewrite It, Hrun; reflexivity); try (unfold wait_ok; ss; intros w d []).
+Qed.
+
+Lemma emit_inv e s : Inv s -> Inv (emit e s).
+Proof. intros H. dinv H. unfold running in *. fin. Qed.
+
+Lemma set_desc_inv hs s : Inv s -> Inv (set_desc hs s).
+Proof. intros H. dinv H. unfold running in *. fin. Qed.
+
+Lemma set_shut_inv b s : Inv s -> Inv (set_shut b s).
+Proof. intros H. dinv H. unfold running in *. fin. Qed.
+
+Lemma remove_waiter_In w w' d l : In (w', d) (remove_waiter w l) -> In (w', d) l.
+Proof. unfold remove_waiter. intros H. apply filter_In in H. tauto. Qed.
+
+Lemma remove_waiter_inv w s : Inv s -> Inv (set_waiters (remove_waiter w (waiters s)) s).
+Proof.
+  intros H. dinv H. unfold running in *. fin.
+  - apply Iw. intros E. rewrite E in *. cbn in *. congruence.
+  - eapply Iwd. eapply remove_waiter_In. eassumption.
+Qed.
+
+Lemma drop_inv reset c s : Inv s -> mem_nat c (opn s) = true ->
+  Inv match cur s with
+      | Some c' => if Nat.eqb c c' then lose_current reset c s
+                   else emit (EvClosed c) (set_opn (remove_nat c (opn s)) s)
+      | None => emit (EvClosed c) (set_opn (remove_nat c (opn s)) s)
+      end.
+Proof.
+  intros H Hm. destruct (cur s) as [c'|] eqn:Ecur.
+  - destruct (inv_cur_ph s c' H Ecur) as [Ho _]. rewrite Ho in Hm. cbn in Hm.
+    destruct (Nat.eqb_spec c c') as [->|]; [|discriminate].
+    now apply lose_current_inv.
+  - rewrite (inv_cur_none_open s H Ecur) in Hm. discriminate.
+Qed.
+
+Lemma apply_control_inv c s : Inv s -> Inv (apply_control c s).
+Proof.
+  intros H. unfold apply_control. pose proof (emit_inv (EvControl c) s H) as He.
+  destruct c as [w|w|hs| |c|c| |].
+  - destruct (shut (emit (EvControl (Ensure w)) s) || connected (emit (EvControl (Ensure w)) s)) eqn:E.
+    + now apply emit_inv.
+    + apply orb_false_iff in E. destruct E as [_ E].
+      apply restart_inv; [exact He|exact E|].
+      intros w' d [Hx|[]]. injection Hx as <- <-. ss. unfold TEN_S. lia.
+  - destruct (has_waiter w (waiters (emit (EvControl (Cancel w)) s))); [|exact He].
+    apply emit_inv. now apply remove_waiter_inv.
+  - destruct (shut (emit (EvControl (Zeroconf hs)) s)); [exact He|].
+    apply reconnect_soon_inv. now apply set_desc_inv.
+  - now apply reconnect_soon_inv.
+  - destruct (mem_nat c (opn (emit (EvControl (Drop c)) s))) eqn:Em; [|exact He].
+    now apply drop_inv.
+  - destruct (mem_nat c (opn (emit (EvControl (DropReset c)) s))) eqn:Em; [|exact He].
+    now apply drop_inv.
+  - apply emit_inv. now apply do_close_inv.
+  - apply emit_inv. apply do_close_inv. now apply set_shut_inv.
+Qed.
+
+(* ---------- timers ---------- *)
+Lemma min_waiter_spec l :
+  match min_waiter l with
+  | Some (w, t) => In (w, t) l /\ forall w' d, In (w', d) l -> (t <= d)%N
+  | None => l = []
+  end.
+Proof.
+  induction l as [|[w0 d0] r IH]; [reflexivity|].
+  cbn [min_waiter]. destruct (min_waiter r) as [[w1 t1]|].
+  - destruct IH as [Hin Hmin]. cbn [snd]. destruct (N.leb_spec d0 t1).
+    + split; [now left|]. intros w' d [Hx|Hx]; [injection Hx as <- <-; lia|]. specialize (Hmin _ _ Hx). lia.
+    + split; [now right|]. intros w' d [Hx|Hx]; [injection Hx as <- <-; lia|]. now apply (Hmin w').
+  - subst r. split; [now left|]. intros w' d [Hx|[]]. injection Hx as <- <-. lia.
+Qed.
+
+Lemma next_timer_spec s x : next_timer s = Some x ->
+  (forall w d, In (w, d) (waiters s) -> (timer_time x <= d)%N) /\
+  (forall p, phase_timer s = Some p -> (timer_time x <= p)%N) /\
+  match x with
+  | TWaiter w t => In (w, t) (waiters s)
+  | TPhase t => phase_timer s = Some t
+  end.
+Proof.
+  unfold next_timer. pose proof (min_waiter_spec (waiters s)) as Hm.
+  destruct (min_waiter (waiters s)) as [[w t]|]; destruct (phase_timer s) as [p|]; intros Hx.
+  - destruct Hm as [Hin Hmin]. destruct (N.leb_spec t p); injection Hx as <-; cbn [timer_time].
+    + split; [exact Hmin|]. split; [|exact Hin]. intros p' Hp. injection Hp as <-. lia.
+    + split; [|split; [|reflexivity]].
+      * intros w' d Hd. specialize (Hmin _ _ Hd). lia.
+      * intros p' Hp. injection Hp as <-. lia.
+  - destruct Hm as [Hin Hmin]. injection Hx as <-. cbn [timer_time].
+    split; [exact Hmin|]. split; [intros p' Hp; discriminate|exact Hin].
+  - injection Hx as <-. cbn [timer_time]. rewrite Hm.
+    split; [intros w' d []|]. split; [|reflexivity]. intros p' Hp. injection Hp as <-. lia.
+  - discriminate.
+Qed.
+
+Lemma set_now_inv t s :
+  Inv s -> (now s <= t)%N ->
+  (forall w d, In (w, d) (waiters s) -> (t <= d)%N) ->
+  (forall p, phase_timer s = Some p -> (t <= p)%N) ->
+  Inv (set_now t s).
+Proof.
+  intros H Hle Hw Hp. dinv H. unfold running in *. fin.
+  - destruct (Is _ H) as [H1 H2]. split; [exact H1|lia].
+  - destruct (Id _ _ _ H) as [H1 H2]. split; [lia|exact H2].
+  - destruct (Iwd _ _ H) as [H1 H2]. specialize (Hw _ _ H). split; lia.
+Qed.
+
+Lemma fire_inv x s : Inv s -> next_timer s = Some x -> Inv (fire x s).
+Proof.
+  intros H Hx. destruct (next_timer_spec s x Hx) as [Hw [Hp Hk]].
+  assert (Hnow : (now s <= timer_time x)%N).
+  { destruct x as [w t|t]; cbn [timer_time] in *.
+    - dinv H. now destruct (Iwd _ _ Hk).
+    - dinv H. now apply Ipt. }
+  pose proof (set_now_inv (timer_time x) s H Hnow Hw Hp) as H1.
+  unfold fire. destruct x as [w t|t]; cbn [timer_time] in *.
+  - apply emit_inv. now apply remove_waiter_inv.
+  - unfold phase_timer in Hk. ss.
+    destruct (ph s) as [|rest dl fhc|c u|wk| | |] eqn:Ep; try discriminate; injection Hk as ->.
+    + (* a hanging dial round times out: next round *)
+      assert (Hcur : cur (set_now t s) = None).
+      { assert (H1' := H1). dinv H1'. ss. destruct (cur s) as [c|] eqn:E; [|reflexivity].
+        destruct (Ic c eq_refl) as [_ [Hx'|[u Hx']]]; congruence. }
+      assert (Hrun : running (set_now t s) = true) by (unfold running; ss; now rewrite Ep).
+      assert (H1' := H1). dinv H1'. ss.
+      destruct (Id _ _ _ Ep) as [_ [Hlen Hincl]].
+      apply rounds_inv; ss; auto.
+      * constructor; ss; auto.
+        -- rewrite Io. unfold cur_list. ss. now rewrite Hcur.
+        -- rewrite It, Hrun. reflexivity.
+      * intros h Hh s'' HC Hh' Hd' _ _ _. apply attempt_loop_inv; [exact HC|].
+        pose proof (need_lt_fuel s'') as Hn. unfold fuel_of in *. ss. rewrite Hh', Hd' in Hn. exact Hn.
+    + (* the re-subscribe round trip completes: the connector is done *)
+      assert (Hrun : running (set_now t s) = true) by (unfold running; ss; now rewrite Ep).
+      assert (H1' := H1). dinv H1'. ss.
+      pose proof (Ip _ _ Ep) as Hcur. destruct (Ic _ Hcur) as [Hsec _].
+      eapply finish_ok_connected_inv; ss; eauto.
+      * rewrite Io. unfold cur_list. ss. now rewrite Hcur.
+      * rewrite It, Hrun. reflexivity.
+    + (* the back-off sleep ends: next attempt *)
+      eapply attempt_from_sleep; [exact H1|]. ss. exact Ep.
+Qed.
+
+Lemma advance_inv : forall f t s, Inv s -> Inv (advance f t s).
+Proof.
+  induction f as [|f IH]; intros t s H.
+  - cbn [advance]. dinv H. unfold running in *. fin.
+  - cbn [advance]. destruct (next_timer s) as [x|] eqn:Ex.
+    + destruct (next_timer_spec s x Ex) as [Hw [Hp _]].
+      destruct (N.ltb_spec (timer_time x) t).
+      * apply IH. now apply fire_inv.
+      * assert (Hgen : forall s', Inv s' -> now s' = now s -> waiters s' = waiters s -> ph s' = ph s ->
+                                  Inv (set_now (N.max t (now s)) s')).
+        { intros s' H' Hn Hws Hph. apply set_now_inv; [exact H'|lia| |].
+          - rewrite Hws. intros w d Hd. specialize (Hw _ _ Hd).
+            dinv H. destruct (Iwd _ _ Hd). lia.
+          - unfold phase_timer. rewrite Hph. intros p Hp'. specialize (Hp _ Hp').
+            dinv H. specialize (Ipt _ Hp'). lia. }
+        destruct (N.eqb (timer_time x) t).
+        -- apply Hgen; ss; auto. dinv H. unfold running in *. fin.
+        -- now apply Hgen.
+    + unfold next_timer in Ex. pose proof (min_waiter_spec (waiters s)) as Hm.
+      destruct (min_waiter (waiters s)) as [[w d]|];
+        [destruct (phase_timer s); [destruct (N.leb _ _)|]; discriminate|].
+      destruct (phase_timer s) eqn:Ept; [discriminate|].
+      apply set_now_inv; [exact H|lia| |].
+      * rewrite Hm. intros w d [].
+      * intros p Hp'. congruence.
+Qed.
+
+Lemma snap_inv b s : Inv s -> Inv (snap b s).
+Proof. intros H. unfold snap. now apply emit_inv. Qed.
+
+Lemma step_inv tc s : Inv s -> Inv (step tc s).
+Proof. intros H. unfold step. apply apply_control_inv, snap_inv, advance_inv, H. Qed.
+
+Lemma init_inv hs sb ds vs : Inv (init hs sb ds vs).
+Proof.
+  unfold init. constructor; cbn; intros; try congruence; try discriminate; auto.
+  all: try (match goal with H : False |- _ => destruct H end).
+  intros w d [].
+Qed.
+
+Theorem run_inv hs sb ds vs controls end_ : Inv (run hs sb ds vs controls end_).
+Proof.
+  unfold run. apply snap_inv, advance_inv.
+  assert (Hgen : forall cs s, Inv s -> Inv (fold_left (fun s tc => step tc s) cs s)).
+  { induction cs as [|tc cs IH]; intros s H; [exact H|]. cbn [fold_left]. apply IH. now apply step_inv. }
+  apply Hgen, init_inv.
+Qed.
+
+(* ---------- reachable states ---------- *)
+Definition reachable (s : st) : Prop :=
+  exists hs sb ds vs cs, s = fold_left (fun s tc => step tc s) cs (init hs sb ds vs).
+
+Lemma fold_step_inv cs s : Inv s -> Inv (fold_left (fun s tc => step tc s) cs s).
+Proof. revert s. induction cs as [|tc cs IH]; intros s H; [exact H|]. cbn [fold_left]. apply IH. now apply step_inv. Qed.
+
+Theorem reachable_inv s : reachable s -> Inv s.
+Proof. intros (hs & sb & ds & vs & cs & ->). apply fold_step_inv, init_inv. Qed.
+
+(* between controls too: any amount of internal timer processing *)
+Theorem reachable_advance_inv s f t : reachable s -> Inv (advance f t s).
+Proof. intros H. apply advance_inv. now apply reachable_inv. Qed.
+
+(* ---------- consequences used by the property theorems ---------- *)
+Lemma inv_open_le_1 s : Inv s -> length (opn s) <= 1 /\ opn s = cur_list s.
+Proof. intros H. dinv H. split; [|exact Io]. rewrite Io. unfold cur_list. destruct (cur s); cbn; lia. Qed.
+
+Lemma inv_failed_closed s : Inv s ->
+  (ph s = PNone \/ ph s = PDoneAuth \/ ph s = PCancelled \/
+   (exists w, ph s = PSleep w) \/ (exists r d f, ph s = PDial r d f)) -> opn s = [] /\ cur s = None.
+Proof.
+  intros H Hp. assert (Hc : cur s = None).
+  { assert (H' := H). dinv H'. destruct (cur s) as [c|] eqn:E; [|reflexivity].
+    destruct (Ic c eq_refl) as [_ [Hx|[u Hx]]];
+      destruct Hp as [Hp|[Hp|[Hp|[[w Hp]|[r [d [f Hp]]]]]]]; congruence. }
+  split; [now apply inv_cur_none_open|exact Hc].
+Qed.
+
+Lemma inv_one_connector s : Inv s -> ntasks s <= 1.
+Proof. intros H. dinv H. rewrite It. destruct (running s); lia. Qed.
+
+Lemma filter_not_in_nil (hs : list nat) : filter (fun h => negb (mem_nat h [])) hs = hs.
+Proof. induction hs as [|h r IH]; [reflexivity|]. cbn [filter mem_nat negb]. f_equal. exact IH. Qed.
+
+(* stale loss: a connection that is not open (already abandoned and closed) changes nothing *)
+Lemma stale_drop_noop c s : mem_nat c (opn s) = false ->
+  apply_control (Drop c) s = emit (EvControl (Drop c)) s /\
+  apply_control (DropReset c) s = emit (EvControl (DropReset c)) s.
+Proof. intros H. unfold apply_control. ss. rewrite H. split; reflexivity. Qed.
+
+Lemma close_total s : Inv s ->
+  let s' := apply_control Close s in
+  Inv s' /\ opn s' = [] /\ closing s' = true /\ hd_error (trace s') = Some (now s', EvReturned false).
+Proof.
+  intros H. cbv zeta. unfold apply_control.
+  destruct (do_close_inv (emit (EvControl Close) s) (emit_inv _ _ H)) as [H1 [H2 H3]].
+  split; [now apply emit_inv|]. ss. split; [exact H2|]. split; [exact H3|reflexivity].
+Qed.
+
+Lemma shutdown_total s : Inv s ->
+  let s' := apply_control Shutdown s in
+  Inv s' /\ opn s' = [] /\ closing s' = true /\ shut s' = true /\ running s' = false.
+Proof.
+  intros H. cbv zeta. unfold apply_control.
+  destruct (do_close_inv (set_shut true (emit (EvControl Shutdown) s)) (set_shut_inv _ _ (emit_inv _ _ H))) as [H1 [H2 H3]].
+  split; [now apply emit_inv|]. ss. split; [exact H2|]. split; [exact H3|].
+  assert (Hsh : shut (do_close (set_shut true (emit (EvControl Shutdown) s))) = true).
+  { unfold do_close, stop_connector, drop_transport, finish, resolve_waiters.
+    destruct (running _); ss; repeat (match goal with |- context [match ?x with _ => _ end] => destruct x end; ss); reflexivity. }
+  split; [exact Hsh|].
+  unfold running. ss. fold (running (do_close (set_shut true (emit (EvControl Shutdown) s)))).
+  destruct (running (do_close (set_shut true (emit (EvControl Shutdown) s)))) eqn:Er; [|reflexivity].
+  dinv H1. specialize (Ir Er). congruence.
+Qed.
+
+(* ---------- after shutdown nothing is attempted any more ---------- *)
+Fixpoint count_dials (tr : list (N * ev)) : nat :=
+  match tr with
+  | [] => 0
+  | (_, EvDial _ _) :: r => S (count_dials r)
+  | _ :: r => count_dials r
+  end.
+
+Definition Quiet (s : st) : Prop :=
+  shut s = true /\ closing s = true /\ running s = false /\ waiters s = [] /\ opn s = [] /\ cur s = None.
+
+(* the pairing-level API; reconnect_soon() on the connection object itself is excluded *)
+Definition pairing_level (c : control) : bool := match c with Soon => false | _ => true end.
+
+Lemma quiet_next_timer s : Quiet s -> next_timer s = None.
+Proof.
+  intros (_ & _ & Hr & Hw & _ & _). unfold next_timer, phase_timer. rewrite Hw. cbn [min_waiter].
+  unfold running in Hr. destruct (ph s); try discriminate; reflexivity.
+Qed.
+
+Lemma quiet_advance f t s : Quiet s ->
+  Quiet (advance f t s) /\ trace (advance f t s) = trace s.
+Proof.
+  intros Q. destruct f as [|f]; cbn [advance].
+  - unfold Quiet, running in *. ss. split; [exact Q|reflexivity].
+  - rewrite (quiet_next_timer s Q). unfold Quiet, running in *. ss. split; [exact Q|reflexivity].
+Qed.
+
+Lemma idle_do_close s : running s = false -> cur s = None ->
+  do_close s = set_secure false (set_closing true s).
+Proof.
+  intros Hr Hc. unfold do_close, stop_connector. unfold running in *. ss. rewrite Hr.
+  unfold drop_transport. ss. rewrite Hc. reflexivity.
+Qed.
+
+Lemma quiet_control c s : Quiet s -> pairing_level c = true ->
+  Quiet (apply_control c s) /\ count_dials (trace (apply_control c s)) = count_dials (trace s).
+Proof.
+  intros (Hs & Hc & Hr & Hw & Ho & Hcu) Hp. unfold running in Hr.
+  destruct c as [w|w|hs| |c|c| |]; try discriminate; unfold apply_control; ss.
+  - rewrite Hs. cbn [orb]. unfold Quiet, running. ss. repeat split; auto.
+  - rewrite Hw. cbn [has_waiter existsb]. unfold Quiet, running. ss. repeat split; auto.
+  - rewrite Hs. unfold Quiet, running. ss. repeat split; auto.
+  - rewrite Ho. cbn [mem_nat]. unfold Quiet, running. ss. repeat split; auto.
+  - rewrite Ho. cbn [mem_nat]. unfold Quiet, running. ss. repeat split; auto.
+  - rewrite idle_do_close by (unfold running; ss; auto). unfold Quiet, running. ss. repeat split; auto.
+  - rewrite idle_do_close by (unfold running; ss; auto). unfold Quiet, running. ss. repeat split; auto.
+Qed.
+
+Lemma quiet_step tc s : Quiet s -> pairing_level (snd tc) = true ->
+  Quiet (step tc s) /\ count_dials (trace (step tc s)) = count_dials (trace s).
+Proof.
+  intros Q Hp. unfold step.
+  destruct (quiet_advance (advance_fuel (fst tc) s) (fst tc) s Q) as [Q1 T1].
+  assert (Q2 : Quiet (snap false (advance (advance_fuel (fst tc) s) (fst tc) s))).
+  { unfold snap, Quiet, running in *. ss. exact Q1. }
+  destruct (quiet_control (snd tc) _ Q2 Hp) as [Q3 T3].
+  split; [exact Q3|]. rewrite T3. unfold snap. ss. rewrite T1. reflexivity.
+Qed.
+
+Theorem quiet_forever cs s :
+  Quiet s -> forallb (fun tc => pairing_level (snd tc)) cs = true ->
+  let s' := fold_left (fun s tc => step tc s) cs s in
+  Quiet s' /\ count_dials (trace s') = count_dials (trace s).
+Proof.
+  revert s. induction cs as [|tc cs IH]; intros s Q Hall; cbv zeta; cbn [fold_left]; [split; [exact Q|reflexivity]|].
+  cbn [forallb] in Hall. apply andb_true_iff in Hall. destruct Hall as [H1 H2].
+  destruct (quiet_step tc s Q H1) as [Q1 T1].
+  destruct (IH _ Q1 H2) as [Q2 T2]. split; [exact Q2|]. rewrite T2. exact T1.
+Qed.
+
+Lemma shutdown_quiet s : Inv s -> Quiet (apply_control Shutdown s).
+Proof.
+  intros H. destruct (shutdown_total s H) as (H1 & H2 & H3 & H4 & H5).
+  unfold Quiet. repeat split; auto.
+  - dinv H1. destruct (waiters (apply_control Shutdown s)) eqn:E; [reflexivity|].
+    assert (X : running (apply_control Shutdown s) = true) by (apply Iw; discriminate). congruence.
+  - destruct (inv_open_le_1 _ H1) as [_ Ho]. rewrite H2 in Ho. unfold cur_list in Ho.
+    destruct (cur (apply_control Shutdown s)); [discriminate|reflexivity].
 Qed.
